@@ -82,7 +82,7 @@ class BuiltinMixin:
         x = a[0]
         f = vf(x.t) if base_type(x.ty) == "float" else z3.If(Val.is_FloatV(x.t), vf(x.t), z3.ToReal(vi(x.t)))
         ip = z3.ToReal(z3.If(f >= 0, z3.ToInt(f), -z3.ToInt(-f)))
-        return R(st, self.new_list(st, self.mkseq([V(Val.FloatV(f - ip), "float"), V(Val.FloatV(ip), "float")]), "tuple"))
+        return R(st, self.new_list(st, self.mkseq([V(Val.FloatV(f - ip), "float"), V(Val.FloatV(ip), "float")]), "tuple[float]"))
 
     def bi_struct_pack(self, st, a, kw, n):
         """struct.pack for the two formats used by the hash stream (assumed: injective; '!q' raises outside 64 bits)"""
@@ -399,6 +399,14 @@ class BuiltinMixin:
             self.assume_type(tmp, V(z3.Select(self.dmap(st, recv), a[0].t), vt))
             if tmp.pc:
                 st.assume(z3.Implies(has, z3.And(*tmp.pc)))     # entries of a typed dict hold values of the declared type
+        if vt is None and len(a) > 1 and base_type(a[1].ty) in ("list", "dict", "set", "tuple") and not self.spec_depth:
+            # d.get(k, []) on a dict of unknown value type, used as a container afterwards: the stored value must be one
+            # (obligation; typically discharged from a precondition on the input format)
+            cur = z3.Select(self.dmap(st, recv), a[0].t)
+            isc = z3.And(Val.is_RefV(cur), st.read("$class", vr(cur)) == self.reg.classtag(base_type(a[1].ty)))
+            self.oblige(f"type-safety:{base_type(a[1].ty)} value under key@L{lineno}", "type-safety", z3.Implies(has, isc), st, lineno)
+            st.assume(z3.Implies(has, isc))
+            return R(st, V(z3.If(has, cur, dflt), base_type(a[1].ty)))
         return R(st, self.typed(st, V(z3.If(has, z3.Select(self.dmap(st, recv), a[0].t), dflt), vt if (len(a) > 1 and a[1].ty == vt) else (("opt:" + vt) if vt else None))))
 
     def m_dict_setdefault(self, st, recv, a, kw, lineno):
